@@ -9,7 +9,8 @@ import sbc_common as SC
 from common import prove
 
 THEOREMS = ["Matid.Props.C18.surface_with_outliers", "Matid.Props.C18.outliers_are_adsorbates", "Matid.Props.C17.classify_total"]
-TRUSTED = ["Lean 4 kernel", "axioms: propext, Classical.choice, Quot.sound at most", "the classifier model of C17 (tied there by correspondence)",
+TRUSTED = ["stage models of the finder (SbcEntry, SpanGraph, BestBasis, AdaptiveCell, WithinBasis, ProtoAssemble, ProtoDecision, Region) with their theorems as obligations; tied by recorded-call correspondence in THIS run: the answers of sub-functions modelled elsewhere (get_matches, get_matches_simple, get_positions_within_basis, _find_best_basis inside the span-graph replay) are recorded and handed to the model as oracle data (recorders in harness/sbc_common.py, harness/region_model.py)", "rule translators gen_sbc_rule / gen_proto_rule / gen_region_rule / gen_assemble_rule / gen_dim_rule (AST facts; a harmless refactoring can flip one)",
+           "Lean 4 kernel", "axioms: propext, Classical.choice, Quot.sound at most", "the classifier model of C17 (tied there by correspondence)",
            "contract F on the periodic finder started from the classifier's seeds (its region's basis atoms are exactly the slab): SAMPLED, not proved"]
 EXPL = ("Conditional Lean theorem (surface_with_outliers / outliers_are_adsorbates): given dimensionality 2 and a region whose basis atoms are the slab, with coverage >= "
         "min_coverage and two connected directions, the class is Surface (Material2D when the region is 2D) and the outliers are exactly the non-slab atoms. "
